@@ -9,7 +9,9 @@
 
    wf_tree t (TreeDist/Spec.v): every internal node has >= 2 children, names and
    length texts are clean (printable; no parenthesis, comma, colon, semicolon,
-   quote, bracket, underscore, slash, blank), leaf names distinct and not
+   quote, bracket, slash, blank; an underscore is allowed - the printer then writes
+   the name in single quotes, the parser and get_bipartition undo that, all of it
+   inside the model: C15_printed_name), leaf names distinct and not
    starting with "edge" (cogent renames those), >= 4 taxa.  has_split t: t has a
    non-trivial bipartition (otherwise lingpy raises ZeroDivisionError).
    tperm a b: b is a with the children of some nodes listed in another order.
@@ -23,6 +25,12 @@ From LV Require Import Common.Cases TreeDist.Newick TreeDist.Bipart TreeDist.RF 
   TreeDist.RFProofs TreeDist.TreeDistExec TreeDist.TreeDistExecProofs.
 Import ListNotations.
 Local Open Scope nat_scope.
+
+(* ---- how a clean name is written: verbatim, or (if it contains an underscore) in single quotes ---- *)
+Theorem C15_printed_name :
+  forall n, clean n = true -> print_name n = n \/ print_name n = "'"%char :: n ++ ["'"%char].
+Proof. exact print_name_clean. Qed.
+Print Assumptions C15_printed_name.
 
 (* ---- get_bipartition of the printed tree = the non-trivial clade splits modulo complement ---- *)
 Theorem C15_bipart_of_print :
@@ -230,3 +238,25 @@ Proof. vm_compute. reflexivity. Qed.
 Example ex_star :
   tree_rf (Node [Leaf (s2l "a") None; Leaf (s2l "b") None; Leaf (s2l "c") None; Leaf (s2l "d") None] None) ex_b = None.
 Proof. vm_compute. reflexivity. Qed.
+
+(* names with underscores: written in quotes, read back, same distances in any child order *)
+Definition ex_u : tree :=     (* (('Old_High_German':0.5,a_1),(Dutch,(b_,c)),e) *)
+  Node [Node [Leaf (s2l "Old_High_German") (Some (s2l "0.5")); Leaf (s2l "a_1") None] None;
+        Node [Leaf (s2l "Dutch") None; Node [Leaf (s2l "b_") None; Leaf (s2l "c") None] None] None;
+        Leaf (s2l "e") None] None.
+Definition ex_u' : tree :=
+  Node [Leaf (s2l "e") None;
+        Node [Node [Leaf (s2l "c") None; Leaf (s2l "b_") None] None; Leaf (s2l "Dutch") None] None;
+        Node [Leaf (s2l "a_1") None; Leaf (s2l "Old_High_German") (Some (s2l "0.5"))] None] None.
+Example ex_u_wf : wf_tree ex_u.
+Proof. repeat split; vm_compute; repeat constructor. Qed.
+Example ex_u_print : print ex_u = s2l "(('Old_High_German':0.5,'a_1'),(Dutch,('b_',c)),e);".
+Proof. vm_compute. reflexivity. Qed.
+Example ex_u_load : load (print ex_u) = Some ex_u /\ load (s2l "((Old_High_German:0.5,a_1),(Dutch,(b_,c)),e);") = Some ex_u.
+Proof. split; vm_compute; reflexivity. Qed.
+Example ex_u_bipartition :
+  get_bipartition (norm3 (print ex_u))
+  = Some ([[s2l "Old_High_German"; s2l "a_1"]; [s2l "b_"; s2l "c"]; [s2l "Dutch"; s2l "b_"; s2l "c"]], leaves ex_u).
+Proof. vm_compute. reflexivity. Qed.
+Example ex_u_perm : tperm ex_u ex_u' /\ tree_rf ex_u ex_u' = Some (0 # 6)%Q /\ tree_grf ex_u' ex_u = Some (0 # 3)%Q.
+Proof. split; [apply tree_permb_sound; vm_compute; reflexivity|split; vm_compute; reflexivity]. Qed.
